@@ -45,7 +45,7 @@ def run_c11(tier, seed, replay):
     wd = common.workdir("C11-%s" % tier)
     rng = random.Random(seed * 7919 + 11)
     thorough = tier == "thorough"
-    cat, sa, da = mode_a_laws(wd, 3 if thorough else 2, 14 if thorough else 4)
+    cat, sa, da = mode_a_laws(wd, 3 if thorough else 2, 16 if thorough else 4)
     laws = cat["laws"]
     oracles = cat["oracles"]
     # the saturation loop as written vs the least fixed point vs graph reachability, all argument pairs
